@@ -23,7 +23,7 @@
 import warnings
 
 import numpy as np
-from scipy.special import roots_chebyu, roots_genlaguerre
+from scipy.special import expit, roots_chebyu, roots_genlaguerre
 
 from grid.basegrid import OneDGrid
 
@@ -1179,9 +1179,9 @@ class LogExpSinh(OneDGrid):
         m = int((npoints - 1) / 2)
         k = np.arange(-m, m + 1)
         # log1p keeps the small nodes distinct (log(1 + tiny) would round all of them to zero)
-        points = np.log1p(np.exp(np.pi * np.sinh(k * h) / 2))
-        weights = np.exp(np.pi * np.sinh(k * h) / 2) * np.pi * h * np.cosh(k * h) / 2
-        weights /= np.exp(np.pi * np.sinh(k * h) / 2) + 1
+        # logaddexp and expit do not overflow when exp(pi sinh(kh) / 2) does
+        points = np.logaddexp(0, np.pi * np.sinh(k * h) / 2)
+        weights = expit(np.pi * np.sinh(k * h) / 2) * np.pi * h * np.cosh(k * h) / 2
         super().__init__(points, weights, (0, np.inf))
 
 
